@@ -417,11 +417,23 @@ def enum_rule(ctx):
     want = {'boolean': "return cnst_lsc.Value.lower() == 'true'", 'integer': 'return int(cnst_lsc.Value)',
             'real': 'return float(cnst_lsc.Value)', 'string': 'return str(cnst_lsc.Value)'}
     got = {}
-    for n in ast.walk(mc):
-        if isinstance(n, ast.If):
-            m = pm.match("s_dt.Name == _T", n.test)
-            if m and isinstance(m['_T'], ast.Constant) and len(n.body) == 1:
-                got[m['_T'].value] = src(n.body[0])
+    from .. import absint
+
+    def ty_eq(e, s, tr):
+        a_, b_ = e['_A'], e['_B']
+        lit, other = (a_, b_) if isinstance(a_, ast.Constant) else (b_, a_)
+        if isinstance(lit, ast.Constant) and isinstance(lit.value, str) and src(other) == 's_dt.Name':
+            return s['ty'] == lit.value
+        return None
+    mi = absint.Interp(mc, [('_A == _B', ty_eq), ('_A != _B', lambda e, s, tr: (None if ty_eq(e, s, tr) is None else not ty_eq(e, s, tr)))],
+                       [('s_dt = one(cnst_syc).S_DT[1500]()', lambda e, s, tr: True),
+                        ('cnst_lsc = one(cnst_syc).CNST_LFSC[1502].CNST_LSC[1503]()', lambda e, s, tr: True)])
+    mi.key_equals = lambda k, kn, s: (s['ty'] == kn.value) if (src(k) == 's_dt.Name' and isinstance(kn, ast.Constant)) else None
+    mi.pure_calls = {'int', 'float', 'str'}
+    for ty in want:
+        out, tr = mi.run({'ty': ty})
+        if out.kind == 'return' and out.value is not None:
+            got[ty] = 'return ' + src(out.value)
     for ty, w in want.items():
         r.check(got.get(ty) == w, 'constant of type %s is converted by `%s`' % (ty, w), mc, construct=OOA + 'mk_constant', key='const ' + ty,
                 msg='mk_constant converts a %s constant with `%s`; expected `%s`' % (ty, got.get(ty), w))
